@@ -54,14 +54,19 @@ type multiErr struct {
 func (e multiErr) Error() string   { return fmt.Sprintf("err#%d(+%d)", e.id, len(e.parts)) }
 func (e multiErr) Unwrap() []error { return e.parts }
 
+// errID identifies the failing element an error stands for. The error may
+// arrive wrapped (fmt.Errorf("...: %w", err)): what the properties promise is
+// "that error", not the identity of the error value.
 func errID(err error) int {
-	if ee, ok := err.(elemErr); ok {
+	var ee elemErr
+	if errors.As(err, &ee) {
 		return ee.id
 	}
-	if me, ok := err.(multiErr); ok {
+	var me multiErr
+	if errors.As(err, &me) {
 		return me.id
 	}
-	if err == errSentinel {
+	if errors.Is(err, errSentinel) {
 		return sentinelID
 	}
 	return math.MinInt
